@@ -3,7 +3,7 @@
    function of (level, data) only, so in the model split independence holds
    by construction; what is proved here are round trips through the two
    models on concrete inputs. *)
-From V Require Import Base.Prelude Base.Prog Bzip2.Common Bzip2.SpecR Bzip2.SpecW Bzip2.Thms Bzip2.Rle1.
+From V Require Import Base.Prelude Base.Prog Bzip2.Common Bzip2.SpecR Bzip2.SpecW Bzip2.Thms Bzip2.Rle1 Bzip2.MtfRle2.
 
 Theorem bzip2_roundtrip_witness_text :
   bzip2_decode (bzip2_encode 1 hello) = mkBZ None hello (N.of_nat (length (bzip2_encode 1 hello))).
@@ -57,3 +57,35 @@ Theorem bzip2_rle1_blocks_cover_input : forall L, 1 <= L -> forall fuel data,
          (rle1_blocks fuel L data).
 Proof. exact rle1_blocks_cover. Qed.
 Print Assumptions bzip2_rle1_blocks_cover_input.
+
+(* Stage 3 for EVERY input: the Reader's MTF / zero-run-length decoder inverts the Writer's
+   encoder - for every list of values, every dictionary containing them and every block
+   limit; the side condition is exact (4194303 equal bytes are refused); every symbol fits
+   the alphabet. *)
+Theorem bzip2_mtf_rle2_roundtrip : forall vals dict maxn,
+  (forall v, In v vals -> In v dict) ->
+  N.of_nat (length vals) <= maxn ->
+  N.of_nat (length vals) + 1 < 4194304 ->
+  mtf_rle2_decode (mtf_rle2_encode vals dict 0 []) dict maxn 1 0 0 [] =
+  Some (N.of_nat (length vals), rev vals).
+Proof. exact mtf_rle2_roundtrip. Qed.
+Print Assumptions bzip2_mtf_rle2_roundtrip.
+
+Theorem bzip2_mtf_rle2_symbols_fit : forall vals dict,
+  (forall v, In v vals -> In v dict) ->
+  Forall (fun s => s <= N.of_nat (length dict)) (mtf_rle2_encode vals dict 0 []).
+Proof. exact mtf_rle2_syms_le. Qed.
+Print Assumptions bzip2_mtf_rle2_symbols_fit.
+
+(* with the dictionary the Writer really uses for a block *)
+Theorem bzip2_mtf_rle2_roundtrip_for_block_dictionary : forall block bwt maxn,
+  bytes_ok block ->
+  (forall v, In v bwt -> In v block) ->
+  N.of_nat (length bwt) <= maxn -> maxn <= 900000 ->
+  let dict := block_dict block in
+  mtf_rle2_decode (mtf_rle2_encode bwt dict 0 []) dict maxn 1 0 0 [] =
+    Some (N.of_nat (length bwt), rev bwt) /\
+  Forall (fun s => s <= N.of_nat (length dict)) (mtf_rle2_encode bwt dict 0 []) /\
+  (length dict <= 256)%nat.
+Proof. exact mtf_rle2_roundtrip_encode_block. Qed.
+Print Assumptions bzip2_mtf_rle2_roundtrip_for_block_dictionary.
